@@ -76,7 +76,7 @@ def fingerprint(rel):
         elif isinstance(p, sql.Payload):
             pay = (str(p.from_clause), [str(w) for w in p.where], sorted((str(k), str(v)) for k, v in p.columns_available.items()))
     return (repr(rel), str(rel), h, frozenset(rel.columns), rel.min_rows, rel.max_rows, pay,
-            None if isinstance(rel, Materialization) else (p is None))
+            None if isinstance(rel, Materialization) else (p is None), list(rel.messages) if isinstance(rel, LeafRelation) else None)
 
 
 def all_nodes(rel, acc=None, seen=None):
@@ -112,7 +112,7 @@ def run_history(start, hist, ctx, valfn):
     def mk():
         env = Env(symbolic=ctx is not None)
         rows = [{c: valfn("X", c, i) for c in "abc"} for i in range(N)]
-        env.add_iter_leaf("X", "abc", rows, engine="it1")
+        env.add_iter_leaf("X", "abc", rows, engine="it1", messages=[])  # an (empty) list, as callers pass
         env.add_sql_leaf("S", "abc", N, table=valfn("S", None, None))
         env.add_sql_leaf("Z", "ad", 1, table=valfn("Z", None, None))
         env.bind = {"$k": valfn("$k", None, None)}
@@ -140,7 +140,7 @@ def run_history(start, hist, ctx, valfn):
             now = fingerprint(r)
             if now != fp:
                 which = [i for i, (x, y) in enumerate(zip(fp, now)) if x != y]
-                names = ["repr", "str", "hash", "columns", "min_rows", "max_rows", "leaf payload content", "payload presence"]
+                names = ["repr", "str", "hash", "columns", "min_rows", "max_rows", "leaf payload content", "payload presence", "leaf messages"]
                 problems.append(("earlier-relation-changed", f"after '{after}': {[names[i] for i in which]} of {fp[1]} changed"))
                 prints[rid] = (r, now)
                 return
@@ -195,8 +195,12 @@ def run_history(start, hist, ctx, valfn):
                 except (EngineError, NotImplementedError, KeyError):
                     pass
             elif act == "diagnose":
-                Diagnostics.run(cur)
-                Diagnostics.run(cur, lambda r: True)
+                reports = []
+                for executor in (None, lambda r: True, lambda r: False, lambda r: False, None):
+                    d = Diagnostics.run(cur, executor)
+                    reports.append((d.is_doomed, list(d.messages)))
+                if reports[0] != reports[4] or reports[2] != reports[3]:
+                    problems.append(("diagnosing-twice-differs", f"{reports[0]} vs {reports[4]} / {reports[2]} vs {reports[3]}"[:300]))
         except Skip:
             raise
         except Exception as e:  # noqa: BLE001
